@@ -9,8 +9,11 @@ extracted OCaml runner (the `model` co-process argument is unused): for every ru
 writes batched files `_work/c18_run_<pid>/cases_c18_<k>.v`, each `From GB Require Import
 Model.Parsers Model.ParsersRun.` followed by one `Eval vm_compute in (ser_... (...)).` per case
 (preceded by a marker `Eval vm_compute in "@@<n>".`), compiles them with
-`timeout 600 coqc -Q <clone>/coq GB <file>` (several files in parallel) and parses the printed
-strings (`     = "..."` / `     : string`; the serializers are in coq/Model/ParsersRun.v).
+`timeout 600 coqc -noglob -Q <clone>/coq GB <file>` (several files in parallel, each at most
+BATCH cases / BATCH_CHARS characters) and parses the printed strings (`     = "..."` /
+`     : string`; the serializers are in coq/Model/ParsersRun.v).  The generated files are
+removed after a successful run and kept when coqc fails.  Shrinking re-evaluates the model with
+one batched coqc call per round.
 
 Parser cases.  A case is an AST (elements -> blocks of literal strings) plus a layout (lines
 before/after, filler lines, blanks, letter case).  `print_nwchem` / `print_gbs` below mirror the
@@ -1484,5 +1487,7 @@ def run(rep, tier, seed, model, replay):
             "printer_tie_checked_in_coq": sum(1 for c, k in zip(cases, checks) if k and c["kind"] in ("nwchem", "gbs")),
             "violations_by_kind": {"%s/%s" % k: v for k, v in sorted(per_kind.items())},
         })
-    finally:
-        coq.close()
+    except Exception:
+        print("C18: harness error; generated Coq files kept in " + coq.dir)
+        raise
+    coq.close()
